@@ -5,7 +5,7 @@ import ast
 from ast import Return, Tuple
 from collections import OrderedDict
 from functools import partial
-from inspect import _empty
+from inspect import _empty, formatannotation
 from itertools import chain
 from operator import itemgetter
 
@@ -132,7 +132,11 @@ def _inspect_process_ir_param(param, sig):
         return name, _param
     sig_param = sig.parameters[name]
     if sig_param.annotation is not _empty:
-        _param["typ"] = lstrip_typings("{!s}".format(sig_param.annotation))
+        _param["typ"] = lstrip_typings(
+            sig_param.annotation
+            if isinstance(sig_param.annotation, str)
+            else formatannotation(sig_param.annotation)
+        )
     if sig_param.default is not _empty:
         _param["default"] = sig_param.default
         if _param.get("typ", _empty) is _empty:
